@@ -604,6 +604,16 @@ fn run_poolwake(driver: DriverType, first: Call, point: Option<usize>) -> Result
             std::thread::sleep(Duration::from_millis(3));
         }
     };
+    // a companion operation whose completion is reaped by the first call, so that the steps after
+    // the wait (reaping, set_awake) are reached on the io_uring driver too
+    let mut fds = [0i32; 2];
+    assert_eq!(unsafe { libc::pipe2(fds.as_mut_ptr(), libc::O_CLOEXEC | libc::O_NONBLOCK) }, 0);
+    let (rd, wr) = unsafe { (<std::os::fd::OwnedFd as std::os::fd::FromRawFd>::from_raw_fd(fds[0]), <std::os::fd::OwnedFd as std::os::fd::FromRawFd>::from_raw_fd(fds[1])) };
+    assert_eq!(unsafe { libc::write(wr.as_raw_fd(), b"x".as_ptr().cast(), 1) }, 1);
+    let _companion = match p.push(compio_driver::op::Read::new(rd, Vec::<u8>::with_capacity(4))) {
+        compio_driver::PushEntry::Pending(k) => Some(k),
+        compio_driver::PushEntry::Ready(_) => None,
+    };
     let npoints = Rc::new(Cell::new(0usize));
     let at: Rc<RefCell<Option<&'static str>>> = Rc::new(RefCell::new(None));
     {
@@ -697,6 +707,9 @@ fn poolwake_family(rep: &Report) {
                 Ok((sig, _)) => {
                     if point.is_some() && sig != "point-not-reached" {
                         rep.count("pool-job-finished-inside-poll", 1);
+                    }
+                    if std::env::var_os("VERIF_DEBUG").is_some() {
+                        eprintln!("poolwake {d:?} {first:?} {point:?} -> {sig}");
                     }
                     rep.outcome(format!("poolwake|{d:?}|{first:?}|{sig}"));
                 }
